@@ -241,7 +241,8 @@ static void runC18(Case& c) {
     c.phase = "pool-dtor";
   }
   // NewThreadInvoker threads are tracked by the library; give a detached runner the chance to finish
-  for (int spin = 0; spin < 2000 && sched == kNewThread && runs.load() == 1 && done.load() == 0; ++spin)
+  // (the thread may not even have started the functor yet when no waiter blocked on the future)
+  for (int spin = 0; spin < 4000 && sched == kNewThread && done.load() == 0; ++spin)
     dsched_sleep_ns(5000);
   // a NewThreadInvoker thread still has to store the result and drop its reference after the functor returned
   for (int spin = 0; spin < 4000 && sched == kNewThread && Res::live.load() != 0; ++spin)
